@@ -7,3 +7,9 @@ claim('C10', 'ast field-set coherence (parameter-protocol triple, rebuild comple
 na('C15', 'every clause is a floating-point linear-algebra identity over continuous inputs (KAK, bidiagonalisation, '
           'Shannon/CS synthesis, gate counts); the code has no pairing/table/guard structure whose violation is '
           'decidable from its shape, so no sound static necessary condition exists in this family')
+claim('C11', 'ast writer/reader/constructor/equality field-set coherence over the JSON registries + corpus key scan + who-may-write on equality fields',
+      'C11.a registry keys resolve and match cirq_type; C11.b constructor coverage of JSON keys and stored state; '
+      'C11.c _from_json_dict_ accepts/uses written keys; C11.d equality fields written, hash fields compared; '
+      'C11.e memoised hashes dropped by __getstate__; C11.f every cirq_type in the stored corpus resolvable; '
+      'C11.h value_equality cache/pickle pairing and no late writes to equality fields',
+      'value-level equality after round trip, numpy/pandas/sympy payload encodings, repr evaluation, qid ordering')
